@@ -403,6 +403,10 @@ class Interp:
             if v[0] == "op" and v[1] == "not":
                 return not self.truth(v[2])
             k = sym.kind(v)
+            if k == "int" and self._single_cellvar(v) is not None:
+                r = self.decide_cmp("!=", v, 0)
+                if r is not None:
+                    return r
             return self.choose(("truth", v))
         if isinstance(v, Rec):
             ln, _ = v.cls.lookup("__len__")
